@@ -976,8 +976,8 @@ class Composition(LemmaUnit):
 
 UNITS += [Composition]
 # buffer() is an operator too: its meaning is the identity on the stream (order, exactly once). Proved by the Buffer units shared with C05/C08.
-from contracts.buffer import RunWorker, RunWorkerNoExtern, BufIter, BufStart      # noqa: E402
-UNITS += [RunWorker, RunWorkerNoExtern, BufIter, BufStart]
+from contracts.buffer import RunWorker, RunWorkerNoExtern, BufIter, BufStart, BufFinalize, BufFinalizeNoop      # noqa: E402
+UNITS += [RunWorker, RunWorkerNoExtern, BufIter, BufStart, BufFinalize, BufFinalizeNoop]
 # parmap() is an operator too: order, exactly-once and the bounded look-ahead are fifo_stream's contract (units shared with C01/C08)
 from contracts.fifo import FeedUnit, FeedUnitNoPre, ConsumerUnit, ConsumerUnitNoPre      # noqa: E402
 from contracts.c01 import ParmapperInit, ParmapperInitDefault, ParmapperIter, ParmapperIterProcess      # noqa: E402
